@@ -462,6 +462,30 @@ func (s *Set) Value(_ context.Context, t *dials.Type) (reflect.Value, error) {
 			panic(fmt.Errorf("field name %s with flag %s is nil", fieldName, f.Name))
 		}
 
+		// A user-declared pointer-to-pointer field (**int) keeps its extra
+		// pointer levels in the pointerified struct: fill in a stand-in
+		// with a single level below and wrap it into the remaining levels
+		// once it is set.
+		if rfield := ffield; ffield.Kind() == reflect.Ptr && ffield.Type().Elem().Kind() == reflect.Ptr {
+			lt := ffield.Type()
+			for lt.Elem().Kind() == reflect.Ptr {
+				lt = lt.Elem()
+			}
+			ffield = reflect.New(lt).Elem()
+			defer func() {
+				if ffield.IsNil() {
+					return
+				}
+				v := ffield
+				for v.Type() != rfield.Type() {
+					p := reflect.New(v.Type())
+					p.Elem().Set(v)
+					v = p
+				}
+				rfield.Set(v)
+			}()
+		}
+
 		// We'll assume we're in a pointerified struct that matches
 		// what we expected before, here.
 		ptrVal := reflect.New(stripTypePtr(ffield.Type()))
